@@ -15,15 +15,36 @@ from ..gen import Gen
 CFG = "SPECIFICATION Spec\nINVARIANT Judge\n"
 
 
+def clash_names(rng, P):
+    """rename the actions of P to a family of names that are prefixes / counter-suffixed forms of one
+    another (n, n_0, n_1, n_0_0 ...): the forms compilers generate for action variants and ground instances"""
+    import json
+
+    base = rng.choice(["a", "act", "move", "op"])
+    fam = [base, base + "_0", base + "_1", base + "_0_0", base + "_" + (P["objects"][0]["name"] if P["objects"] else "x")]
+    rng.shuffle(fam)
+    P = json.loads(json.dumps(P))
+    ren = {}
+    for a, n in zip(P["actions"], fam):
+        ren[a["name"]] = n
+        a["name"] = n
+    for c in P["metric"].get("costs", []):
+        c["a"] = ren.get(c["a"], c["a"])
+    return P
+
+
 def corpus(ctx, per):
     jobs = []
     cid = 0
     for cname in compobs.COMPILERS:
         for adv in (True, False):
             g = Gen(ctx.rng, adversarial_names=adv, **compobs.MASKS[cname])
-            for _ in range(per if adv else max(2, per // 3)):
+            for k in range(per if adv else max(2, per // 3)):
                 cid += 1
-                jobs.append((cid, g.problem(), cname, False))
+                P = g.problem()
+                if adv and k % 2 == 1:
+                    P = clash_names(ctx.rng, P)
+                jobs.append((cid, P, cname, False))
     return jobs
 
 
